@@ -470,6 +470,55 @@ def shell_worker(chunk, seed, tier):
     return part.result()
 
 
+def shell_histories(ctx):
+    """Shell objects under assignment: nbasis/ncon/nexp must follow the current angmoms and kinds (read - assign - read)."""
+    from iodata.basis import MolecularBasis, Shell
+
+    types = [(0, "c"), (1, "c"), (2, "c"), (2, "p"), (3, "p"), (5, "c")]
+
+    def count(combo):
+        return sum((l + 1) * (l + 2) // 2 if k == "c" else 2 * l + 1 for l, k in combo)
+
+    for ncon in (1, 2):
+        for first in itertools.product(types, repeat=ncon):
+            for second in itertools.product(types, repeat=ncon):
+                if first == second:
+                    continue
+                for read_first in (False, True):
+                    for how in ("assign-both", "assign-kinds-then-angmoms", "in-place"):
+                        ctx.count()
+                        sh = Shell(0, [l for l, _ in first], [k for _, k in first], [1.0, 2.0], np.ones((2, ncon)))
+                        basis = MolecularBasis([sh], {}, "L2")
+                        hist = [f"Shell{list(first)}"]
+                        if read_first:
+                            n0 = (sh.nbasis, basis.nbasis)
+                            hist.append("read nbasis")
+                            if n0 != (count(first), count(first)):
+                                ctx.violation("shell", "shell:nbasis-wrong", {"history": hist}, f"{hist}: nbasis {n0}")
+                        try:
+                            if how == "in-place":
+                                for i, (l, k) in enumerate(second):
+                                    sh.angmoms[i] = l
+                                    sh.kinds[i] = k
+                            elif how == "assign-both":
+                                sh.angmoms = [l for l, _ in second]
+                                sh.kinds = [k for _, k in second]
+                            else:
+                                sh.kinds = [k for _, k in second]
+                                sh.angmoms = [l for l, _ in second]
+                        except Exception as exc:  # noqa: BLE001
+                            ctx.outcome("shell-history", f"assignment-rejected-{type(exc).__name__}")
+                            continue
+                        hist.append(f"{how} -> {list(second)}")
+                        ctx.nontrivial(repr(hist))
+                        got = (sh.nbasis, basis.nbasis)
+                        ok = got == (count(second), count(second))
+                        ctx.outcome("shell-history", "follows-current-values" if ok else "STALE")
+                        if not ok:
+                            ctx.violation("shell", "shell:nbasis-stale-after-assignment" + (":after-read" if read_first else ""), {"history": hist},
+                                          f"{hist}: nbasis reads {got}, angmoms/kinds now give {count(second)}")
+
+
 def run(ctx):
     from mc.pool import pmap
 
@@ -479,6 +528,7 @@ def run(ctx):
     inits = [(s,) for s in starts(max_norb)]
     g = esb.bfs(inits, ops_of, build, canon, oracle.on_transition, depth, on_state=oracle.on_state)
     generalized_cases(ctx)
+    shell_histories(ctx)
     counts = [None, 0, 1, 2, 3] + ([5, 6] if ctx.thorough else [])
     pmap(ctx, ctor_worker, [(k, a, b) for k in ("restricted", "unrestricted", "generalized") for a in counts for b in counts], chunk=2)
     types = [(l, k) for l in (0, 1, 2, 5, 9) for k in ("c", "p", "x")]
